@@ -494,7 +494,11 @@ func (w *World) applyTx(h int64, idx int, p *TxPlan, r *abci.ResponseDeliverTx, 
 
 	// ---------------- success: preconditions that some property declares necessary ------------
 	if p.Tampered {
-		w.violate("tx.tampered-accepted", pC03, h, "tx %d (%s): altered after signing (%s) yet succeeded", idx, kind, mutName(p))
+		tp := pC03
+		if tx.Type == trxUnstaking {
+			tp = []string{"C03", "C12"} // a release its owner did not sign
+		}
+		w.violate("tx.tampered-accepted", tp, h, "tx %d (%s): altered after signing (%s) yet succeeded", idx, kind, mutName(p))
 		// the model cannot follow an execution that must not exist
 		w.Fatal = true
 		return zero
